@@ -27,6 +27,8 @@ func runC01(w *World) *Result {
 	ExitRule(w, bash, batch, r, "R-C01-exit")
 	r.Rule("R-C01-lower", "for / if lowering follows the protocol (init, ForStart, guarded increment, condition, ForCondition, body, ForEnd; all conditions before IfStart)", 2)
 	ProtoRule(w, r, "R-C01-lower", func(n string) bool { return n == "For" || n == "If" || n == "Block" })
+	r.Rule("R-C01-prec", "operator levels of the expression parser follow Go's precedence; all levels left-associative; every operator on one level", 8)
+	PrecRule(w, r, "R-C01-prec")
 	r.Rule("R-C01-dispatch", "every constructed node kind has its handler", 25)
 	DispatchRule(w, r, "R-C01-dispatch")
 	return r
